@@ -1648,8 +1648,8 @@ variant('b-keepalive-timestamp-in-utc', ['C15'], 'rsocket/rsocket_client.py',
         "        self._last_server_keepalive = datetime.now()", "        self._last_server_keepalive = datetime.utcnow()",
         ('C15.b', 'one clock'))
 variant('b-hold-queue-waits-for-room', ['C14'], RB,
-        "        self._request_queue.put_nowait(frame)\n\n    def send_priority_frame",
-        "        try:\n            self._request_queue.put_nowait(frame)\n        except asyncio.QueueFull:\n            asyncio.create_task(self._request_queue.put(frame))\n\n    def send_priority_frame",
+        "            self.finish_stream(frame.stream_id)\n            raise\n\n    def send_priority_frame",
+        "            asyncio.create_task(self._request_queue.put(frame))\n\n    def send_priority_frame",
         ('C14.h', 'overflow reaches the caller'))
 variant('b-route-scan-stops-at-first-foreign-entry', ['C19'], 'rsocket/extensions/helpers.py',
         "        if isinstance(item, RoutingMetadata):\n            return item.tags[0].decode()",
@@ -2580,3 +2580,14 @@ variant('t-builder-size-through-a-local', ['C03', 'C05'], 'rsocket/frame_builder
         "    request.metadata = payload.metadata\n    request.fragment_size_bytes = fragment_size_bytes\n    return request\n\n\ndef to_request_response_frame",
         "    request.metadata = payload.metadata\n    size = fragment_size_bytes\n    request.fragment_size_bytes = size\n    return request\n\n\ndef to_request_response_frame",
         kind='twin')
+
+# C10.e (F25, fixed 4ebed5f) a request the lease hold queue refuses is released
+variant('b-orig-f25-refused-request-stays-registered', ['C10', 'C14'], RB,
+        "        try:\n            self._request_queue.put_nowait(frame)\n        except asyncio.QueueFull:\n            # the request is refused, not retained: do not keep its stream registered\n            self.finish_stream(frame.stream_id)\n            raise\n",
+        "        self._request_queue.put_nowait(frame)\n", ('C10.e', '_queue_request_frame'))
+variant('b-refused-request-released-but-swallowed', ['C10', 'C14'], RB,
+        "            self.finish_stream(frame.stream_id)\n            raise\n",
+        "            self.finish_stream(frame.stream_id)\n", ('C10.e', '_queue_request_frame'))
+variant('t-refused-request-handler-catches-exception', ['C10', 'C14', 'C01'], RB,
+        "        except asyncio.QueueFull:\n            # the request is refused",
+        "        except Exception:\n            # the request is refused", kind='twin')
